@@ -140,7 +140,7 @@ Proof.
   - eapply invA_own; eauto.
 Qed.
 
-Lemma invA_init progs : invA (init progs).
+Lemma invA_init g progs : invA (init_g g progs).
 Proof.
   split; cbn.
   - intros t H; discriminate.
@@ -151,7 +151,7 @@ Qed.
 
 Lemma invA_reach progs s : reach progs s -> invA s.
 Proof.
-  apply reach_ind; [apply invA_init|].
+  apply reach_ind; [intro g; apply invA_init|].
   intros s0 t c s1 I H. apply step_inv in H. destruct H as [th [l [Ht H]]]. eapply invA_step; eauto.
 Qed.
 
